@@ -8,9 +8,7 @@ Lemma tables_as_modelled :
   /\ forallb (fun c => N.ltb c 300) pp_printables = true
   /\ forallb (fun c => Bool.eqb (is_pp_white c) (existsb (N.eqb c) pp_white_chars)) (map N.of_nat (seq 0 300)) = true
   /\ forallb (fun c => N.ltb c 300) pp_white_chars = true
-  /\ brace_stop_width = 4 /\ convert_stop_width = 4
-  /\ brace_exclude_chars = [LBRACE; RBRACE] /\ brace_white_arg = [SP] /\ brace_opener = [LBRACE] /\ brace_closer = [RBRACE]
-  /\ junos_comment_delims = [[HASH]].
+  /\ brace_stop_width = 4 /\ convert_stop_width = 4 /\ junos_comment_delims = [[HASH]].
 Proof. repeat split; vm_compute; reflexivity. Qed.
 
 (* ================================================================== characters *)
@@ -211,4 +209,764 @@ Proof.
     rewrite S1. rewrite drop_semi_no.
     + rewrite <- (app_nil_r text) at 1. apply strip_text; try assumption. reflexivity.
     + destruct (rev text); [exact I | tauto].
+Qed.
+
+(* ================================================================== scanning *)
+Definition cons_line (l : str) (r : result (list str)) : result (list str) := bind r (fun x => Ok (l :: x)).
+Definition prepend (ls : list str) (r : result (list str)) : result (list str) := bind r (fun x => Ok (ls ++ x)).
+Definition scan_lines (sw : nat) (m : mode) (d : nat) (s : str) : result (list str) :=
+  bind (scan m d s) (fun toks => Ok (map (unpack sw) toks)).
+
+Lemma lines_emit sw d acc k :
+  bind (emit d acc k) (fun toks => Ok (map (unpack sw) toks))
+  = cons_line (unpack sw (d, rev acc)) (bind k (fun toks => Ok (map (unpack sw) toks))).
+Proof. destruct k; reflexivity. Qed.
+
+Lemma prepend_nil r : prepend [] r = r.
+Proof. destruct r; reflexivity. Qed.
+Lemma prepend_cons x l r : prepend (x :: l) r = cons_line x (prepend l r).
+Proof. destruct r; reflexivity. Qed.
+Lemma prepend_app a b r : prepend (a ++ b) r = prepend a (prepend b r).
+Proof. destruct r; simpl; [rewrite app_assoc; reflexivity | reflexivity]. Qed.
+
+Lemma all_ws_cons c r : all_ws (c :: r) = true -> is_ws3 c = true /\ all_ws r = true.
+Proof. unfold all_ws. cbn [forallb]. intros H. apply andb_true_iff in H. exact H. Qed.
+
+Lemma scan_skip_ws w d s : all_ws w = true -> scan MSkip d (w ++ s) = scan MSkip d s.
+Proof.
+  induction w as [|c w IH]; intros H; [reflexivity|].
+  apply all_ws_cons in H. destruct H as [Hc Hw]. apply ws3_white in Hc.
+  cbn [app scan]. rewrite Hc. apply IH. exact Hw.
+Qed.
+Lemma all_sp_ws s : all_sp s = true -> all_ws s = true.
+Proof.
+  induction s as [|c r IH]; intros H; [reflexivity|].
+  apply all_sp_cons in H. destruct H as [Hc Hr]. subst c. unfold all_ws. cbn [forallb]. fold (all_ws r). rewrite (IH Hr). reflexivity.
+Qed.
+
+Lemma scan_run t : forall acc d s, forallb is_content t = true ->
+  scan (MRun acc) d (t ++ s) = scan (MRun (rev t ++ acc)) d s.
+Proof.
+  induction t as [|c t IH]; intros acc d s H; [reflexivity|].
+  cbn [forallb] in H. apply andb_true_iff in H. destruct H as [Hc Ht].
+  cbn [app scan]. rewrite Hc. unfold char, str in *. rewrite (IH (c :: acc) d s Ht). cbn [rev]. rewrite <- app_assoc. reflexivity.
+Qed.
+
+Lemma not_content_not_quote c : is_content c = false -> (N.eqb c DQ || N.eqb c SQ)%bool = false.
+Proof.
+  intros H. destruct (N.eqb c DQ) eqn:E1.
+  - apply N.eqb_eq in E1. subst c. discriminate.
+  - destruct (N.eqb c SQ) eqn:E2; [|reflexivity]. apply N.eqb_eq in E2. subst c. discriminate.
+Qed.
+
+Lemma scan_run_stop acc d c r : is_content c = false ->
+  scan (MRun acc) d (c :: r) = emit d acc (scan MSkip d (c :: r)).
+Proof.
+  intros H. cbn [scan]. rewrite H. rewrite (not_content_not_quote c H).
+  destruct (is_pp_white c); [reflexivity|]. destruct (N.eqb c LBRACE); [reflexivity|].
+  destruct (N.eqb c RBRACE); reflexivity.
+Qed.
+
+Definition run_stops (s : str) : Prop :=
+  exists sp rest, s = sp ++ rest /\ all_sp sp = true /\ match rest with [] => True | c :: _ => is_content c = false end.
+
+Lemma scan_run_end acc d s : run_stops s ->
+  exists sp, all_sp sp = true /\ scan (MRun acc) d s = emit d (rev sp ++ acc) (scan MSkip d s).
+Proof.
+  intros [sp [rest [E [Hsp Hrest]]]]. subst s. exists sp. split; [exact Hsp|].
+  rewrite scan_run by (apply all_sp_content; exact Hsp).
+  rewrite scan_skip_ws by (apply all_sp_ws; exact Hsp).
+  destruct rest as [|c r]; [reflexivity|]. apply scan_run_stop. exact Hrest.
+Qed.
+
+Lemma ws_run_stops w c r : all_ws w = true -> is_content c = false -> run_stops (w ++ c :: r).
+Proof.
+  intros Hw Hc. induction w as [|c' w IH].
+  - exists [], (c :: r). repeat split; assumption.
+  - apply all_ws_cons in Hw. destruct Hw as [Hc' Hw]. destruct (ws3_cases c' Hc') as [E|[_ Hn]].
+    + subst c'. destruct (IH Hw) as [sp [rest [E [Hsp Hrest]]]].
+      exists (SP :: sp), rest. split; [cbn [app]; rewrite E; reflexivity|]. split; [|exact Hrest].
+      unfold all_sp. cbn [forallb]. fold (all_sp sp). rewrite Hsp. reflexivity.
+    + exists [], (c' :: w ++ c :: r). repeat split; assumption.
+Qed.
+Lemma lb_run_stops c r s : is_lb c = true -> run_stops ((c :: r) ++ s).
+Proof. intros H. exists [], ((c :: r) ++ s). repeat split. cbn [app]. apply lb_not_content. exact H. Qed.
+
+(* a token that starts with a printable non-brace non-quote character *)
+Lemma scan_token d c0 x rest :
+  is_printable c0 = true -> is_brace c0 = false -> N.eqb c0 DQ = false -> N.eqb c0 SQ = false ->
+  forallb is_content x = true -> run_stops rest ->
+  exists sp, all_sp sp = true /\
+    scan MSkip d ((c0 :: x) ++ rest) = emit d (rev ((c0 :: x) ++ sp)) (scan MSkip d rest).
+Proof.
+  intros Hp Hb Hdq Hsq Hx Hr.
+  destruct (printable_facts c0 Hp) as [Hw _]. destruct (brace_split c0 Hb) as [Hl Hrb].
+  destruct (scan_run_end (rev x ++ [c0]) d rest Hr) as [sp [Hsp E]]. exists sp. split; [exact Hsp|].
+  cbn [app scan]. rewrite Hw, Hl, Hrb, Hdq, Hsq. cbn [orb].
+  assert (Hc : is_content c0 = true) by (unfold is_content; rewrite Hp, Hb; reflexivity).
+  rewrite Hc. rewrite scan_run by exact Hx. unfold char, str in *. rewrite E.
+  f_equal. cbn [rev]. rewrite rev_app_distr, <- app_assoc. reflexivity.
+Qed.
+
+Lemma scan_open d r : scan MSkip d (LBRACE :: r) = scan MSkip (S d) r.
+Proof. reflexivity. Qed.
+Lemma scan_close d r : scan MSkip (S d) (RBRACE :: r) = scan MSkip d r.
+Proof. reflexivity. Qed.
+
+Lemma wf_term_ws term : wf_term term = true -> all_ws term = true.
+Proof.
+  unfold wf_term. destruct term as [|c r]; [discriminate|]. intros H. apply andb_true_iff in H. destruct H as [Hc Hr].
+  unfold all_ws. cbn [forallb]. fold (all_ws r). rewrite Hr.
+  unfold is_lb in Hc. unfold is_ws3. apply orb_true_iff in Hc. destruct Hc as [Hc|Hc]; rewrite Hc; [rewrite orb_true_r|]; rewrite ?orb_true_r; reflexivity.
+Qed.
+
+Lemma scan_leaf sw d pre text trail (semi : bool) trail2 term s :
+  all_ws pre = true -> wf_text text = true -> all_sp trail = true -> all_sp trail2 = true -> all_ws term = true ->
+  run_stops (term ++ s) ->
+  scan_lines sw MSkip d (pre ++ text ++ trail ++ (if semi then [SEMI] else []) ++ trail2 ++ term ++ s)
+  = cons_line (indent_of sw d ++ text) (scan_lines sw MSkip d s).
+Proof.
+  intros Hpre Ht H1 H2 Hterm Hstop. unfold scan_lines. rewrite scan_skip_ws by exact Hpre.
+  destruct (wf_text_facts text Ht) as [c0 [t' [E [Hc [Hp [Hb [Hdq [Hsq Hl]]]]]]]].
+  assert (Hx : forallb is_content (t' ++ trail ++ (if semi then [SEMI] else []) ++ trail2) = true).
+  { rewrite E in Hc. cbn [forallb] in Hc. apply andb_true_iff in Hc. destruct Hc as [_ Hc].
+    repeat apply forallb_app_true; try assumption; try (apply all_sp_content; assumption).
+    destruct semi; reflexivity. }
+  destruct (scan_token d c0 _ (term ++ s) Hp Hb Hdq Hsq Hx Hstop) as [sp [Hsp Es]].
+  replace (text ++ trail ++ (if semi then [SEMI] else []) ++ trail2 ++ term ++ s)
+    with ((c0 :: t' ++ trail ++ (if semi then [SEMI] else []) ++ trail2) ++ term ++ s)
+    by (rewrite E; cbn [app]; rewrite <- !app_assoc; reflexivity).
+  unfold char, str in *. rewrite Es. rewrite lines_emit. rewrite rev_involutive. rewrite scan_skip_ws by exact Hterm.
+  f_equal.
+  etransitivity; [|apply (unpack_raw sw d text trail semi trail2 sp); assumption].
+  f_equal. f_equal. rewrite E. cbn [app]. rewrite <- !app_assoc. reflexivity.
+Qed.
+
+(* ================================================================== the layout induction *)
+Scheme ltree_mind := Induction for ltree Sort Prop
+  with lforest_mind := Induction for lforest Sort Prop.
+Combined Scheme ltree_lforest_ind from ltree_mind, lforest_mind.
+
+Definition P_tree (sw : nat) (t : ltree) : Prop := forall d s lo,
+  wf_ltree lo t = true -> (lo = true -> run_stops s) ->
+  scan_lines sw MSkip d (render_tree t ++ s)
+  = prepend (lines_tree sw d t) (scan_lines sw MSkip (d + unclosed_tree t) s).
+Definition P_forest (sw : nat) (f : lforest) : Prop := forall d s cf,
+  wf_lforest cf f = true -> (cf = true -> run_stops s) ->
+  scan_lines sw MSkip d (render_forest f ++ s)
+  = prepend (lines_forest sw d f) (scan_lines sw MSkip (d + unclosed_forest f) s).
+
+Lemma lbrace_not_content : is_content LBRACE = false. Proof. reflexivity. Qed.
+Lemma rbrace_not_content : is_content RBRACE = false. Proof. reflexivity. Qed.
+
+Lemma scan_layout sw : (forall t, P_tree sw t) /\ (forall f, P_forest sw f).
+Proof.
+  apply ltree_lforest_ind.
+  - (* leaf *)
+    intros pre text trail semi trail2 term d s lo Hwf Hs.
+    cbn [wf_ltree] in Hwf.
+    apply andb_true_iff in Hwf. destruct Hwf as [Hwf Hterm].
+    apply andb_true_iff in Hwf. destruct Hwf as [Hwf H2].
+    apply andb_true_iff in Hwf. destruct Hwf as [Hwf H1].
+    apply andb_true_iff in Hwf. destruct Hwf as [Hpre Ht].
+    cbn [render_tree lines_tree unclosed_tree]. rewrite Nat.add_0_r.
+    rewrite prepend_cons, prepend_nil. rewrite <- !app_assoc.
+    apply scan_leaf; try assumption.
+    + apply orb_true_iff in Hterm. destruct Hterm as [Hterm|Hterm].
+      * apply wf_term_ws. exact Hterm.
+      * apply andb_true_iff in Hterm. destruct Hterm as [_ Hterm]. destruct term; [reflexivity | discriminate].
+    + apply orb_true_iff in Hterm. destruct Hterm as [Hterm|Hterm].
+      * unfold wf_term in Hterm. destruct term as [|c r]; [discriminate|].
+        apply andb_true_iff in Hterm. destruct Hterm as [Hc _]. apply lb_run_stops. exact Hc.
+      * apply andb_true_iff in Hterm. destruct Hterm as [Hlo Hterm]. destruct term; [|discriminate].
+        cbn [app]. apply Hs. exact Hlo.
+  - (* block *)
+    intros pre text gap kids IHk pre_close closed d s lo Hwf Hs.
+    cbn [wf_ltree] in Hwf.
+    apply andb_true_iff in Hwf. destruct Hwf as [Hwf Hkids].
+    apply andb_true_iff in Hwf. destruct Hwf as [Hwf Hpc].
+    apply andb_true_iff in Hwf. destruct Hwf as [Hwf Hgap].
+    apply andb_true_iff in Hwf. destruct Hwf as [Hpre Ht].
+    cbn [render_tree lines_tree unclosed_tree]. rewrite <- !app_assoc. cbn [app].
+    destruct (wf_text_facts text Ht) as [c0 [t' [E [Hc [Hp [Hb [Hdq [Hsq Hl]]]]]]]].
+    assert (Hx : forallb is_content t' = true).
+    { rewrite E in Hc. cbn [forallb] in Hc. apply andb_true_iff in Hc. tauto. }
+    set (R := render_forest kids ++ pre_close ++ (if closed then [RBRACE] else []) ++ s).
+    assert (Hstop : run_stops (gap ++ LBRACE :: R)) by (apply ws_run_stops; [exact Hgap | reflexivity]).
+    destruct (scan_token d c0 t' (gap ++ LBRACE :: R) Hp Hb Hdq Hsq Hx Hstop) as [sp [Hsp Es]].
+    unfold scan_lines at 1. rewrite scan_skip_ws by exact Hpre.
+    rewrite E. subst R. unfold char, str in *. cbn [app] in Es. cbn [app]. rewrite Es.
+    rewrite lines_emit. rewrite rev_involutive. rewrite scan_skip_ws by exact Hgap. rewrite scan_open.
+    match goal with |- context [bind (scan MSkip (S d) ?X) ?F] =>
+      change (bind (scan MSkip (S d) X) F) with (scan_lines sw MSkip (S d) X) end.
+    rewrite (IHk (S d) _ closed Hkids).
+    + rewrite prepend_cons. f_equal.
+      * etransitivity; [|apply (unpack_raw sw d (c0 :: t') [] false [] sp); try reflexivity; try assumption].
+        -- cbn [app]. reflexivity.
+        -- rewrite <- E. exact Ht.
+      * f_equal. unfold scan_lines. rewrite scan_skip_ws by exact Hpc.
+        destruct closed.
+        -- cbn [app Nat.add]. rewrite scan_close. rewrite Nat.add_0_r. reflexivity.
+        -- cbn [app]. replace (S d + unclosed_forest kids) with (d + (unclosed_forest kids + 1)) by lia. reflexivity.
+    + intros Hcl. subst closed. apply ws_run_stops; [exact Hpc | reflexivity].
+  - (* empty forest *)
+    intros d s cf _ _. cbn [render_forest lines_forest unclosed_forest app]. rewrite Nat.add_0_r, prepend_nil. reflexivity.
+  - (* cons *)
+    intros t IHt r IHr d s cf Hwf Hs.
+    cbn [wf_lforest] in Hwf. apply andb_true_iff in Hwf. destruct Hwf as [Hwt Hwr].
+    cbn [render_forest lines_forest unclosed_forest]. rewrite <- app_assoc.
+    rewrite (IHt d (render_forest r ++ s) _ Hwt).
+    + rewrite (IHr (d + unclosed_tree t) s cf Hwr Hs). rewrite prepend_app, Nat.add_assoc. reflexivity.
+    + intros Hlo. apply andb_true_iff in Hlo. destruct Hlo as [Hcf Hnil]. destruct r; [|discriminate].
+      cbn [render_forest app]. apply Hs. exact Hcf.
+Qed.
+
+(* ================================================================== lines of a complete layout = flattened tree *)
+Lemma lines_flatten sw :
+  (forall t d, unclosed_tree t = 0 -> lines_tree sw d t = flatten_tree sw d (erase_tree t))
+  /\ (forall f d, unclosed_forest f = 0 -> lines_forest sw d f = flatten_forest sw d (erase_forest f)).
+Proof.
+  apply ltree_lforest_ind.
+  - intros; reflexivity.
+  - intros pre text gap kids IHk pre_close closed d H. cbn [unclosed_tree] in H.
+    cbn [lines_tree erase_tree flatten_tree]. f_equal. apply IHk. lia.
+  - intros; reflexivity.
+  - intros t IHt r IHr d H. cbn [unclosed_forest] in H.
+    cbn [lines_forest erase_forest flatten_forest].
+    assert (Ht : unclosed_tree t = 0) by lia. assert (Hr : unclosed_forest r = 0) by lia.
+    rewrite Ht, Nat.add_0_r. rewrite (IHt d Ht), (IHr d Hr). reflexivity.
+Qed.
+
+(* ================================================================== no tabs: expandtabs is the identity *)
+Definition no_tab (s : str) : bool := forallb (fun c => negb (N.eqb c TAB)) s.
+Lemma expandtabs_aux_id s : forall col, no_tab s = true -> expandtabs_aux col s = s.
+Proof.
+  unfold no_tab. induction s as [|c r IH]; intros col H; [reflexivity|].
+  cbn [forallb] in H. apply andb_true_iff in H. destruct H as [Hc Hr]. apply negb_true_iff in Hc.
+  cbn [expandtabs_aux]. rewrite Hc. destruct (N.eqb c NL || N.eqb c CRc)%bool; rewrite IH by exact Hr; reflexivity.
+Qed.
+Lemma no_tab_app a b : no_tab a = true -> no_tab b = true -> no_tab (a ++ b) = true.
+Proof. apply forallb_app_true. Qed.
+Lemma ws_no_tab w : all_ws w = true -> no_tab w = true.
+Proof.
+  induction w as [|c r IH]; intros H; [reflexivity|]. apply all_ws_cons in H. destruct H as [Hc Hr].
+  unfold no_tab. cbn [forallb]. fold (no_tab r). rewrite (IH Hr), andb_true_r.
+  destruct (ws3_cases c Hc) as [E|[Hl _]]; [subst c; reflexivity|].
+  unfold is_lb in Hl. apply orb_true_iff in Hl. destruct Hl as [Hl|Hl]; apply N.eqb_eq in Hl; subst c; reflexivity.
+Qed.
+Lemma content_no_tab t : forallb is_content t = true -> no_tab t = true.
+Proof.
+  induction t as [|c r IH]; intros H; [reflexivity|]. cbn [forallb] in H. apply andb_true_iff in H. destruct H as [Hc Hr].
+  unfold no_tab. cbn [forallb]. fold (no_tab r). rewrite (IH Hr), andb_true_r.
+  destruct (N.eqb c TAB) eqn:E; [|reflexivity]. apply N.eqb_eq in E. subst c. discriminate.
+Qed.
+Lemma leaf_term_ws lo term : (wf_term term || (lo && match term with [] => true | _ => false end))%bool = true -> all_ws term = true.
+Proof.
+  intros H. apply orb_true_iff in H. destruct H as [H|H]; [apply wf_term_ws; exact H|].
+  apply andb_true_iff in H. destruct H as [_ H]. destruct term; [reflexivity | discriminate].
+Qed.
+
+Lemma render_no_tab :
+  (forall t lo, wf_ltree lo t = true -> no_tab (render_tree t) = true)
+  /\ (forall f cf, wf_lforest cf f = true -> no_tab (render_forest f) = true).
+Proof.
+  apply ltree_lforest_ind.
+  - intros pre text trail semi trail2 term lo Hwf. cbn [wf_ltree] in Hwf.
+    apply andb_true_iff in Hwf. destruct Hwf as [Hwf Hterm].
+    apply andb_true_iff in Hwf. destruct Hwf as [Hwf H2].
+    apply andb_true_iff in Hwf. destruct Hwf as [Hwf H1].
+    apply andb_true_iff in Hwf. destruct Hwf as [Hpre Ht].
+    destruct (wf_text_facts text Ht) as [c0 [t' [E [Hc _]]]].
+    cbn [render_tree]. repeat apply no_tab_app.
+    + apply ws_no_tab; exact Hpre.
+    + apply content_no_tab; exact Hc.
+    + apply ws_no_tab, all_sp_ws; exact H1.
+    + destruct semi; reflexivity.
+    + apply ws_no_tab, all_sp_ws; exact H2.
+    + apply ws_no_tab. eapply leaf_term_ws. exact Hterm.
+  - intros pre text gap kids IHk pre_close closed lo Hwf. cbn [wf_ltree] in Hwf.
+    apply andb_true_iff in Hwf. destruct Hwf as [Hwf Hkids].
+    apply andb_true_iff in Hwf. destruct Hwf as [Hwf Hpc].
+    apply andb_true_iff in Hwf. destruct Hwf as [Hwf Hgap].
+    apply andb_true_iff in Hwf. destruct Hwf as [Hpre Ht].
+    destruct (wf_text_facts text Ht) as [c0 [t' [E [Hc _]]]].
+    cbn [render_tree]. repeat apply no_tab_app.
+    + apply ws_no_tab; exact Hpre.
+    + apply content_no_tab; exact Hc.
+    + apply ws_no_tab; exact Hgap.
+    + reflexivity.
+    + eapply IHk. exact Hkids.
+    + apply ws_no_tab; exact Hpc.
+    + destruct closed; reflexivity.
+  - intros; reflexivity.
+  - intros t IHt r IHr cf Hwf. cbn [wf_lforest] in Hwf. apply andb_true_iff in Hwf. destruct Hwf as [Hwt Hwr].
+    cbn [render_forest]. apply no_tab_app; [eapply IHt; exact Hwt | eapply IHr; exact Hwr].
+Qed.
+
+(* the first character of a rendering is never a brace *)
+Definition head_brace (s : str) : bool := match s with c :: _ => is_brace c | [] => false end.
+Lemma head_brace_ws w rest : all_ws w = true -> head_brace rest = false -> head_brace (w ++ rest) = false.
+Proof.
+  destruct w as [|c r]; intros Hw Hr; [exact Hr|]. apply all_ws_cons in Hw. destruct Hw as [Hc _].
+  cbn [app head_brace]. destruct (ws3_cases c Hc) as [E|[Hl _]]; [subst c; reflexivity|].
+  unfold is_lb in Hl. apply orb_true_iff in Hl. destruct Hl as [Hl|Hl]; apply N.eqb_eq in Hl; subst c; reflexivity.
+Qed.
+Lemma head_brace_tree t lo rest : wf_ltree lo t = true -> head_brace (render_tree t ++ rest) = false.
+Proof.
+  destruct t as [pre text trail semi trail2 term | pre text gap kids pre_close closed]; intros Hwf; cbn [wf_ltree] in Hwf.
+  - apply andb_true_iff in Hwf. destruct Hwf as [Hwf _].
+    apply andb_true_iff in Hwf. destruct Hwf as [Hwf _].
+    apply andb_true_iff in Hwf. destruct Hwf as [Hwf _].
+    apply andb_true_iff in Hwf. destruct Hwf as [Hpre Ht].
+    destruct (wf_text_facts text Ht) as [c0 [t' [E [_ [_ [Hb _]]]]]].
+    cbn [render_tree]. rewrite <- !app_assoc. apply head_brace_ws; [exact Hpre|]. rewrite E. exact Hb.
+  - apply andb_true_iff in Hwf. destruct Hwf as [Hwf _].
+    apply andb_true_iff in Hwf. destruct Hwf as [Hwf _].
+    apply andb_true_iff in Hwf. destruct Hwf as [Hwf _].
+    apply andb_true_iff in Hwf. destruct Hwf as [Hpre Ht].
+    destruct (wf_text_facts text Ht) as [c0 [t' [E [_ [_ [Hb _]]]]]].
+    cbn [render_tree]. rewrite <- !app_assoc. apply head_brace_ws; [exact Hpre|]. rewrite E. exact Hb.
+Qed.
+Lemma head_brace_top top fin : wf_lforest true top = true -> all_ws fin = true -> head_brace (render_forest top ++ fin) = false.
+Proof.
+  intros Hwf Hfin. destruct top as [|t r].
+  - cbn [render_forest app]. rewrite <- (app_nil_r fin). apply head_brace_ws; [exact Hfin | reflexivity].
+  - cbn [wf_lforest] in Hwf. apply andb_true_iff in Hwf. destruct Hwf as [Hwt _].
+    cbn [render_forest]. rewrite <- app_assoc. eapply head_brace_tree. exact Hwt.
+Qed.
+
+(* ================================================================== the two main results about brace_lines *)
+Lemma brace_lines_layout sw top fin : wf_lforest true top = true -> all_ws fin = true ->
+  brace_lines sw (render_forest top ++ fin)
+  = prepend (lines_forest sw 0 top)
+      (match unclosed_forest top with O => Ok [] | S _ => Raise E_ParseException end).
+Proof.
+  intros Hwf Hfin. unfold brace_lines, brace_tokens.
+  pose proof (head_brace_top top fin Hwf Hfin) as Hh. unfold head_brace in Hh. rewrite Hh.
+  assert (Hnt : no_tab ((render_forest top ++ fin) ++ [RBRACE]) = true).
+  { repeat apply no_tab_app; [eapply (proj2 render_no_tab); exact Hwf | apply ws_no_tab; exact Hfin | reflexivity]. }
+  unfold expandtabs. cbn [expandtabs_aux]. change (N.eqb LBRACE TAB) with false.
+  change (N.eqb LBRACE NL || N.eqb LBRACE CRc)%bool with false. cbv iota.
+  rewrite expandtabs_aux_id by exact Hnt.
+  change (bind (scan MSkip 0 ((render_forest top ++ fin) ++ [RBRACE])) (fun toks => Ok (map (unpack sw) toks)))
+    with (scan_lines sw MSkip 0 ((render_forest top ++ fin) ++ [RBRACE])).
+  rewrite <- app_assoc.
+  rewrite (proj2 (scan_layout sw) top 0 (fin ++ [RBRACE]) true Hwf).
+  - f_equal. cbn [Nat.add]. unfold scan_lines. rewrite scan_skip_ws by exact Hfin.
+    destruct (unclosed_forest top); reflexivity.
+  - intros _. apply ws_run_stops; [exact Hfin | reflexivity].
+Qed.
+
+Lemma brace_roundtrip sw top fin : wf_lforest true top = true -> all_ws fin = true -> unclosed_forest top = 0 ->
+  brace_lines sw (render_forest top ++ fin) = Ok (flatten_forest sw 0 (erase_forest top)).
+Proof.
+  intros Hwf Hfin Hu. rewrite brace_lines_layout by assumption. rewrite Hu.
+  unfold prepend. cbn [bind]. rewrite app_nil_r. rewrite (proj2 (lines_flatten sw) top 0 Hu). reflexivity.
+Qed.
+
+Lemma brace_unclosed_raises sw top fin : wf_lforest true top = true -> all_ws fin = true -> 0 < unclosed_forest top ->
+  brace_lines sw (render_forest top ++ fin) = Raise E_ParseException.
+Proof.
+  intros Hwf Hfin Hu. rewrite brace_lines_layout by assumption.
+  destruct (unclosed_forest top); [lia | reflexivity].
+Qed.
+
+(* the same through convert_junos_to_ios: the text is given as the list of its lines *)
+Lemma convert_roundtrip sw lines top fin : lines <> [] -> join [NL] lines = render_forest top ++ fin ->
+  wf_lforest true top = true -> all_ws fin = true -> unclosed_forest top = 0 ->
+  convert_junos sw lines = Ok (flatten_forest sw 0 (erase_forest top)).
+Proof.
+  intros Hne E Hwf Hfin Hu. unfold convert_junos. destruct lines as [|l ls]; [congruence|].
+  rewrite E. apply brace_roundtrip; assumption.
+Qed.
+Lemma convert_unclosed_raises sw lines top fin : lines <> [] -> join [NL] lines = render_forest top ++ fin ->
+  wf_lforest true top = true -> all_ws fin = true -> 0 < unclosed_forest top ->
+  convert_junos sw lines = Raise E_ParseException.
+Proof.
+  intros Hne E Hwf Hfin Hu. unfold convert_junos. destruct lines as [|l ls]; [congruence|].
+  rewrite E. apply brace_unclosed_raises; assumption.
+Qed.
+
+(* ================================================================== parents of the flattened tree *)
+Section Parents.
+Variable sw : nat.
+Hypothesis sw_pos : 0 < sw.
+
+Definition info_of (d : nat) (text : str) : linfo := (d * sw, negb (is_comment_text text), is_comment_text text).
+Fixpoint info_tree (d : nat) (t : tree) : list linfo :=
+  match t with Node text kids => info_of d text :: info_forest (S d) kids end
+with info_forest (d : nat) (f : forest) : list linfo :=
+  match f with FNil => [] | FCons t r => info_tree d t ++ info_forest d r end.
+
+Scheme tree_mind := Induction for tree Sort Prop
+  with forest_mind := Induction for forest Sort Prop.
+Combined Scheme tree_forest_ind from tree_mind, forest_mind.
+
+Fixpoint push (prev : list (nat * linfo)) (i : nat) (ls : list linfo) : list (nat * linfo) :=
+  match ls with [] => prev | x :: r => push ((i, x) :: prev) (S i) r end.
+
+Lemma parents_go_app a : forall prev i b,
+  parents_go prev i (a ++ b) = parents_go prev i a ++ parents_go (push prev i a) (i + length a) b.
+Proof.
+  induction a as [|x a IH]; intros prev i b.
+  - cbn [app parents_go push length]. rewrite Nat.add_0_r. reflexivity.
+  - cbn [app parents_go push length]. rewrite IH. rewrite Nat.add_succ_r. reflexivity.
+Qed.
+
+Definition ind_of (x : linfo) : nat := fst (fst x).
+
+Lemma find_parent_push ls : forall prev i x, Forall (fun y => x <= ind_of y) ls ->
+  find_parent (push prev i ls) x = find_parent prev x.
+Proof.
+  induction ls as [|y ls IH]; intros prev i x H; [reflexivity|].
+  apply Forall_cons_iff in H. destruct H as [Hy Hls].
+  cbn [push]. rewrite IH by exact Hls. destruct y as [[iy cy] my]. cbn [find_parent]. unfold ind_of in Hy. cbn [fst] in Hy.
+  assert (E : (iy <? x) = false) by (apply Nat.ltb_ge; exact Hy). rewrite E, andb_false_r. reflexivity.
+Qed.
+
+Lemma push_head ls : forall prev i, ls <> [] -> exists j x rest, push prev i ls = (j, x) :: rest /\ In x ls.
+Proof.
+  induction ls as [|y ls IH]; intros prev i H; [congruence|].
+  destruct ls as [|z ls'].
+  - exists i, y, prev. split; [reflexivity | left; reflexivity].
+  - destruct (IH ((i, y) :: prev) (S i)) as [j [x [rest [E Hin]]]]; [discriminate|].
+    exists j, x, rest. split; [exact E | right; exact Hin].
+Qed.
+
+Lemma info_ge :
+  (forall t d, Forall (fun y => d * sw <= ind_of y) (info_tree d t))
+  /\ (forall f d, Forall (fun y => d * sw <= ind_of y) (info_forest d f)).
+Proof.
+  apply tree_forest_ind.
+  - intros text kids IHk d. cbn [info_tree]. constructor; [unfold ind_of, info_of; cbn [fst]; lia|].
+    eapply Forall_impl; [|apply (IHk (S d))]. intros y Hy. cbn [Nat.mul] in Hy. lia.
+  - intros d. constructor.
+  - intros t IHt r IHr d. cbn [info_forest]. apply Forall_app. split; [apply IHt | apply IHr].
+Qed.
+
+Lemma info_length :
+  (forall t d, length (info_tree d t) = size_tree t) /\ (forall f d, length (info_forest d f) = size_forest f).
+Proof.
+  apply tree_forest_ind.
+  - intros text kids IHk d. cbn [info_tree size_tree length]. rewrite IHk. reflexivity.
+  - reflexivity.
+  - intros t IHt r IHr d. cbn [info_forest size_forest]. rewrite app_length, IHt, IHr. reflexivity.
+Qed.
+
+(* the context in which a forest at depth d is processed *)
+Definition ctx_ok (d : nat) (prev : list (nat * linfo)) (p : option nat) : Prop :=
+  match d with
+  | O => p = None
+  | S _ => exists j, p = Some j /\ find_parent prev (d * sw) = Some j
+  end.
+
+Definition openers_ok_t (t : tree) : Prop := wf_tree t = true.
+
+Lemma head_deeper_after t d prev i :
+  head_deeper (push prev i (info_tree d t)) (d * sw) = match t with Node _ FNil => false | _ => true end.
+Proof.
+  destruct t as [text kids]. cbn [info_tree push]. destruct kids as [|k ks].
+  - cbn [info_forest push head_deeper]. unfold info_of. apply Nat.ltb_irrefl.
+  - assert (Hne : info_forest (S d) (FCons k ks) <> []).
+    { cbn [info_forest]. destruct k as [tx kk]. cbn [info_tree]. discriminate. }
+    destruct (push_head _ ((i, info_of d text) :: prev) (S i) Hne) as [j [x [rest [E Hin]]]].
+    rewrite E. destruct x as [[ix cx] mx]. cbn [head_deeper].
+    pose proof (proj2 info_ge (FCons k ks) (S d)) as G. rewrite Forall_forall in G. specialize (G _ Hin).
+    unfold ind_of in G. cbn [fst] in G. apply Nat.ltb_lt. cbn [Nat.mul] in G. lia.
+Qed.
+
+Lemma parents_flat :
+  (forall t d prev i p, ctx_ok d prev p -> wf_tree t = true ->
+     parents_go prev i (info_tree d t) = tree_parents p (head_deeper prev (d * sw)) i t)
+  /\ (forall f d prev i p, ctx_ok d prev p -> wf_forest f = true ->
+     parents_go prev i (info_forest d f) = forest_parents p (head_deeper prev (d * sw)) i f).
+Proof.
+  apply tree_forest_ind.
+  - (* node *)
+    intros text kids IHk d prev i p Hctx Hwf. cbn [wf_tree] in Hwf.
+    apply andb_true_iff in Hwf. destruct Hwf as [Hwf Hkids]. apply andb_true_iff in Hwf. destruct Hwf as [Ht Hop].
+    cbn [info_tree parents_go tree_parents]. f_equal.
+    + unfold info_of, parent_of. destruct d as [|d'].
+      * cbn [ctx_ok] in Hctx. subst p. reflexivity.
+      * destruct Hctx as [j [Hp Hf]]. subst p.
+        assert (E : (S d' * sw =? 0) = false) by (apply Nat.eqb_neq; cbn [Nat.mul]; lia).
+        rewrite E, Hf. reflexivity.
+    + destruct kids as [|k ks]; [reflexivity|].
+      assert (Hcfg : negb (is_comment_text text) = true) by exact Hop.
+      rewrite (IHk (S d) ((i, info_of d text) :: prev) (S i) (Some i)).
+      * f_equal. cbn [head_deeper]. unfold info_of. apply Nat.ltb_ge. cbn [Nat.mul]. lia.
+      * cbn [ctx_ok]. exists i. split; [reflexivity|]. unfold info_of. cbn [find_parent]. rewrite Hcfg.
+        assert (E : (d * sw <? S d * sw) = true) by (apply Nat.ltb_lt; cbn [Nat.mul]; lia). rewrite E. reflexivity.
+      * exact Hkids.
+  - intros; reflexivity.
+  - (* cons *)
+    intros t IHt r IHr d prev i p Hctx Hwf. cbn [wf_forest] in Hwf. apply andb_true_iff in Hwf. destruct Hwf as [Hwt Hwr].
+    cbn [info_forest forest_parents]. rewrite parents_go_app.
+    rewrite (IHt d prev i p Hctx Hwt). f_equal.
+    rewrite (proj1 info_length). rewrite (IHr d (push prev i (info_tree d t)) (i + size_tree t) p).
+    + rewrite head_deeper_after. reflexivity.
+    + destruct d as [|d']; [exact Hctx|]. destruct Hctx as [j [Hp Hf]]. exists j. split; [exact Hp|].
+      rewrite find_parent_push; [exact Hf | apply (proj1 info_ge)].
+    + exact Hwr.
+Qed.
+
+(* line_info of an indented statement text *)
+Lemma lstrip_indent n text : match text with c :: _ => is_space c = false | [] => True end ->
+  lstrip (repeat SP n ++ text) = text.
+Proof.
+  intros H. unfold lstrip. rewrite lstrip_by_all.
+  - destruct text as [|c r]; [reflexivity|]. cbn [lstrip_by]. rewrite H. reflexivity.
+  - induction n as [|n IH]; [reflexivity|]. cbn [repeat forallb]. rewrite IH. reflexivity.
+Qed.
+
+Lemma line_info_flat d text : wf_text text = true ->
+  line_info [HASH] (indent_of sw d ++ text) = info_of d text.
+Proof.
+  intros Ht. destruct (wf_text_facts text Ht) as [c0 [t' [E [_ [Hp _]]]]].
+  unfold line_info, indent_of. rewrite lstrip_indent by (rewrite E; apply printable_not_space; exact Hp).
+  unfold info_of. rewrite app_length, repeat_length. rewrite E. cbn [is_comment_text existsb length].
+  rewrite orb_false_r. replace (d * sw + S (length t') - S (length t')) with (d * sw) by lia. reflexivity.
+Qed.
+
+Lemma infos_flat :
+  (forall t d, wf_tree t = true -> map (line_info [HASH]) (flatten_tree sw d t) = info_tree d t)
+  /\ (forall f d, wf_forest f = true -> map (line_info [HASH]) (flatten_forest sw d f) = info_forest d f).
+Proof.
+  apply tree_forest_ind.
+  - intros text kids IHk d Hwf. cbn [wf_tree] in Hwf.
+    apply andb_true_iff in Hwf. destruct Hwf as [Hwf Hkids]. apply andb_true_iff in Hwf. destruct Hwf as [Ht _].
+    cbn [flatten_tree info_tree map]. rewrite line_info_flat by exact Ht. rewrite IHk by exact Hkids. reflexivity.
+  - reflexivity.
+  - intros t IHt r IHr d Hwf. cbn [wf_forest] in Hwf. apply andb_true_iff in Hwf. destruct Hwf as [Hwt Hwr].
+    cbn [flatten_forest info_forest]. rewrite map_app, IHt, IHr by assumption. reflexivity.
+Qed.
+
+Lemma brace_parents f : wf_forest f = true ->
+  parents_model (map (line_info [HASH]) (flatten_forest sw 0 f)) = forest_parents None false 0 f.
+Proof.
+  intros Hwf. rewrite (proj2 infos_flat f 0 Hwf). unfold parents_model.
+  apply (proj2 parents_flat f 0 [] 0 None); [reflexivity | exact Hwf].
+Qed.
+
+(* indentation of the flattened tree: every line is indented sw * depth, a block's lines are at least
+   one level deeper than its opener (this is what composes with C02's links_parent) *)
+Lemma flatten_indents f d : wf_forest f = true ->
+  Forall (fun y => d * sw <= ind_of y) (map (line_info [HASH]) (flatten_forest sw d f)).
+Proof. intros Hwf. rewrite (proj2 infos_flat f d Hwf). apply (proj2 info_ge). Qed.
+
+End Parents.
+
+(* ================================================================== TAB characters in the layout *)
+(* pyparsing expands tabs before scanning: the expansion of a layout with tabs is the rendering of a
+   tab-free layout of the same tree *)
+Fixpoint col_after (col : nat) (s : str) : nat :=
+  match s with
+  | [] => col
+  | c :: r => if N.eqb c TAB then col_after (col + (8 - col mod 8)) r
+              else if (N.eqb c NL || N.eqb c CRc)%bool then col_after 0 r
+              else col_after (S col) r
+  end.
+Notation E := expandtabs_aux.
+
+Lemma expandtabs_app a : forall col b, E col (a ++ b) = E col a ++ E (col_after col a) b.
+Proof.
+  induction a as [|c a IH]; intros col b; [reflexivity|].
+  cbn [app expandtabs_aux col_after]. destruct (N.eqb c TAB).
+  - rewrite IH, app_assoc. reflexivity.
+  - destruct (N.eqb c NL || N.eqb c CRc)%bool; rewrite IH; reflexivity.
+Qed.
+
+Lemma all_ws_repeat n : all_ws (repeat SP n) = true.
+Proof. induction n as [|n IH]; [reflexivity|]. unfold all_ws. cbn [repeat forallb]. fold (all_ws (repeat SP n)). rewrite IH. reflexivity. Qed.
+Lemma all_sp_repeat n : all_sp (repeat SP n) = true.
+Proof. induction n as [|n IH]; [reflexivity|]. unfold all_sp. cbn [repeat forallb]. fold (all_sp (repeat SP n)). rewrite IH. reflexivity. Qed.
+
+Lemma ws3_not_tab c : is_ws3 c = true -> N.eqb c TAB = false.
+Proof.
+  intros H. destruct (ws3_cases c H) as [E1|[Hl _]]; [subst c; reflexivity|].
+  unfold is_lb in Hl. apply orb_true_iff in Hl. destruct Hl as [Hl|Hl]; apply N.eqb_eq in Hl; subst c; reflexivity.
+Qed.
+
+Lemma E_ws4 w : forall col, all_ws4 w = true -> all_ws (E col w) = true.
+Proof.
+  unfold all_ws4. induction w as [|c r IH]; intros col H; [reflexivity|].
+  cbn [forallb] in H. apply andb_true_iff in H. destruct H as [Hc Hr].
+  cbn [expandtabs_aux]. destruct (N.eqb c TAB) eqn:Et.
+  - rewrite all_ws_app, all_ws_repeat, IH by exact Hr. reflexivity.
+  - unfold is_ws4 in Hc. rewrite Et, orb_false_r in Hc.
+    destruct (N.eqb c NL || N.eqb c CRc)%bool; unfold all_ws; cbn [forallb]; rewrite Hc;
+      [fold (all_ws (E 0 r)) | fold (all_ws (E (S col) r))]; rewrite IH by exact Hr; reflexivity.
+Qed.
+Lemma E_spt w : forall col, all_spt w = true -> all_sp (E col w) = true.
+Proof.
+  unfold all_spt. induction w as [|c r IH]; intros col H; [reflexivity|].
+  cbn [forallb] in H. apply andb_true_iff in H. destruct H as [Hc Hr].
+  cbn [expandtabs_aux]. destruct (N.eqb c TAB) eqn:Et.
+  - rewrite all_sp_app, all_sp_repeat, IH by exact Hr. reflexivity.
+  - rewrite orb_false_r in Hc. apply N.eqb_eq in Hc. subst c.
+    change (N.eqb SP NL || N.eqb SP CRc)%bool with false. cbv iota.
+    unfold all_sp. cbn [forallb]. fold (all_sp (E (S col) r)). rewrite IH by exact Hr. reflexivity.
+Qed.
+Lemma E_term term col : wf_termT term = true -> wf_term (E col term) = true.
+Proof.
+  unfold wf_termT. destruct term as [|c r]; [discriminate|]. intros H. apply andb_true_iff in H. destruct H as [Hc Hr].
+  cbn [expandtabs_aux].
+  assert (Et : N.eqb c TAB = false).
+  { unfold is_lb in Hc. apply orb_true_iff in Hc. destruct Hc as [Hc|Hc]; apply N.eqb_eq in Hc; subst c; reflexivity. }
+  rewrite Et. unfold is_lb in Hc. rewrite Hc. unfold wf_term. unfold is_lb. rewrite Hc. apply E_ws4. exact Hr.
+Qed.
+Lemma E_text text col : wf_text text = true -> E col text = text.
+Proof.
+  intros H. destruct (wf_text_facts text H) as [c0 [t' [_ [Hc _]]]]. apply expandtabs_aux_id. apply content_no_tab. exact Hc.
+Qed.
+Lemma E_semi (semi : bool) col : E col (if semi then [SEMI] else []) = (if semi then [SEMI] else []).
+Proof. destruct semi; reflexivity. Qed.
+Lemma E_closer (closed : bool) col : E col (if closed then [RBRACE] else []) = (if closed then [RBRACE] else []).
+Proof. destruct closed; reflexivity. Qed.
+
+Fixpoint detab_tree (col : nat) (t : ltree) : ltree :=
+  match t with
+  | LLeaf pre text trail semi trail2 term =>
+      let c1 := col_after col pre in
+      let c2 := col_after c1 text in
+      let c3 := col_after c2 trail in
+      let c4 := col_after c3 (if semi then [SEMI] else []) in
+      let c5 := col_after c4 trail2 in
+      LLeaf (E col pre) text (E c2 trail) semi (E c4 trail2) (E c5 term)
+  | LBlock pre text gap kids pre_close closed =>
+      let c1 := col_after col pre in
+      let c2 := col_after c1 text in
+      let c3 := col_after c2 gap in
+      let c4 := col_after c3 [LBRACE] in
+      let c5 := col_after c4 (render_forest kids) in
+      LBlock (E col pre) text (E c2 gap) (detab_forest c4 kids) (E c5 pre_close) closed
+  end
+with detab_forest (col : nat) (f : lforest) : lforest :=
+  match f with
+  | LNil => LNil
+  | LCons t r => LCons (detab_tree col t) (detab_forest (col_after col (render_tree t)) r)
+  end.
+
+Lemma detab_nil_iff col r : match detab_forest col r with LNil => true | _ => false end = match r with LNil => true | _ => false end.
+Proof. destruct r; reflexivity. Qed.
+
+Lemma detab_ok :
+  (forall t col lo, wfT_ltree lo t = true ->
+     render_tree (detab_tree col t) = E col (render_tree t) /\ wf_ltree lo (detab_tree col t) = true
+     /\ erase_tree (detab_tree col t) = erase_tree t /\ unclosed_tree (detab_tree col t) = unclosed_tree t
+     /\ forall sw d, lines_tree sw d (detab_tree col t) = lines_tree sw d t)
+  /\ (forall f col cf, wfT_lforest cf f = true ->
+     render_forest (detab_forest col f) = E col (render_forest f) /\ wf_lforest cf (detab_forest col f) = true
+     /\ erase_forest (detab_forest col f) = erase_forest f /\ unclosed_forest (detab_forest col f) = unclosed_forest f
+     /\ forall sw d, lines_forest sw d (detab_forest col f) = lines_forest sw d f).
+Proof.
+  apply ltree_lforest_ind.
+  - intros pre text trail semi trail2 term col lo Hwf. cbn [wfT_ltree] in Hwf.
+    apply andb_true_iff in Hwf. destruct Hwf as [Hwf Hterm].
+    apply andb_true_iff in Hwf. destruct Hwf as [Hwf H2].
+    apply andb_true_iff in Hwf. destruct Hwf as [Hwf H1].
+    apply andb_true_iff in Hwf. destruct Hwf as [Hpre Ht].
+    cbn [detab_tree]. repeat split.
+    + cbn [render_tree]. rewrite !expandtabs_app. rewrite (E_text text _ Ht), E_semi. reflexivity.
+    + cbn [wf_ltree]. rewrite (E_ws4 pre col Hpre), Ht, (E_spt trail _ H1), (E_spt trail2 _ H2). cbn [andb].
+      apply orb_true_iff in Hterm. destruct Hterm as [Hterm|Hterm].
+      * rewrite (E_term term _ Hterm). reflexivity.
+      * apply andb_true_iff in Hterm. destruct Hterm as [Hlo Hterm]. destruct term; [|discriminate].
+        rewrite Hlo. cbn [expandtabs_aux andb]. apply orb_true_r.
+  - intros pre text gap kids IHk pre_close closed col lo Hwf. cbn [wfT_ltree] in Hwf.
+    apply andb_true_iff in Hwf. destruct Hwf as [Hwf Hkids].
+    apply andb_true_iff in Hwf. destruct Hwf as [Hwf Hpc].
+    apply andb_true_iff in Hwf. destruct Hwf as [Hwf Hgap].
+    apply andb_true_iff in Hwf. destruct Hwf as [Hpre Ht].
+    cbn [detab_tree].
+    set (c4 := col_after (col_after (col_after (col_after col pre) text) gap) [LBRACE]).
+    destruct (IHk c4 closed Hkids) as [K1 [K2 [K3 [K4 K5]]]].
+    repeat split.
+    + cbn [render_tree]. rewrite !expandtabs_app. rewrite (E_text text _ Ht), E_closer. fold c4. rewrite K1. reflexivity.
+    + cbn [wf_ltree]. rewrite (E_ws4 pre col Hpre), Ht, (E_ws4 gap _ Hgap), (E_ws4 pre_close _ Hpc), K2. reflexivity.
+    + cbn [erase_tree]. rewrite K3. reflexivity.
+    + cbn [unclosed_tree]. rewrite K4. reflexivity.
+    + intros sw d. cbn [lines_tree]. rewrite K5. reflexivity.
+  - intros col cf _. repeat split.
+  - intros t IHt r IHr col cf Hwf. cbn [wfT_lforest] in Hwf. apply andb_true_iff in Hwf. destruct Hwf as [Hwt Hwr].
+    destruct (IHt col _ Hwt) as [T1 [T2 [T3 [T4 T5]]]].
+    destruct (IHr (col_after col (render_tree t)) cf Hwr) as [R1 [R2 [R3 [R4 R5]]]].
+    cbn [detab_forest]. repeat split.
+    + cbn [render_forest]. rewrite expandtabs_app, T1, R1. reflexivity.
+    + cbn [wf_lforest]. rewrite detab_nil_iff, T2, R2. reflexivity.
+    + cbn [erase_forest]. rewrite T3, R3. reflexivity.
+    + cbn [unclosed_forest]. rewrite T4, R4. reflexivity.
+    + intros sw d. cbn [lines_forest]. rewrite T5, T4, R5. reflexivity.
+Qed.
+
+Lemma ws4_not_brace c : is_ws4 c = true -> is_brace c = false.
+Proof.
+  unfold is_ws4. intros H. apply orb_true_iff in H. destruct H as [H|H].
+  - destruct (ws3_cases c H) as [E1|[Hl _]]; [subst c; reflexivity|].
+    unfold is_lb in Hl. apply orb_true_iff in Hl. destruct Hl as [Hl|Hl]; apply N.eqb_eq in Hl; subst c; reflexivity.
+  - apply N.eqb_eq in H. subst c. reflexivity.
+Qed.
+Lemma head_brace_ws4 w rest : all_ws4 w = true -> head_brace rest = false -> head_brace (w ++ rest) = false.
+Proof.
+  destruct w as [|c r]; intros Hw Hr; [exact Hr|]. unfold all_ws4 in Hw. cbn [forallb] in Hw.
+  apply andb_true_iff in Hw. destruct Hw as [Hc _]. cbn [app head_brace]. apply ws4_not_brace. exact Hc.
+Qed.
+Lemma head_brace_topT top fin : wfT_lforest true top = true -> all_ws4 fin = true -> head_brace (render_forest top ++ fin) = false.
+Proof.
+  intros Hwf Hfin. destruct top as [|t r].
+  - cbn [render_forest app]. rewrite <- (app_nil_r fin). apply head_brace_ws4; [exact Hfin | reflexivity].
+  - cbn [wfT_lforest] in Hwf. apply andb_true_iff in Hwf. destruct Hwf as [Hwt _].
+    cbn [render_forest]. rewrite <- app_assoc.
+    destruct t as [pre text trail semi trail2 term | pre text gap kids pre_close closed]; cbn [wfT_ltree] in Hwt.
+    + apply andb_true_iff in Hwt. destruct Hwt as [Hwt _]. apply andb_true_iff in Hwt. destruct Hwt as [Hwt _].
+      apply andb_true_iff in Hwt. destruct Hwt as [Hwt _]. apply andb_true_iff in Hwt. destruct Hwt as [Hpre Ht].
+      destruct (wf_text_facts text Ht) as [c0 [t' [E1 [_ [_ [Hb _]]]]]].
+      cbn [render_tree]. rewrite <- !app_assoc. apply head_brace_ws4; [exact Hpre|]. rewrite E1. exact Hb.
+    + apply andb_true_iff in Hwt. destruct Hwt as [Hwt _]. apply andb_true_iff in Hwt. destruct Hwt as [Hwt _].
+      apply andb_true_iff in Hwt. destruct Hwt as [Hwt _]. apply andb_true_iff in Hwt. destruct Hwt as [Hpre Ht].
+      destruct (wf_text_facts text Ht) as [c0 [t' [E1 [_ [_ [Hb _]]]]]].
+      cbn [render_tree]. rewrite <- !app_assoc. apply head_brace_ws4; [exact Hpre|]. rewrite E1. exact Hb.
+Qed.
+
+(* scanning a complete tab-free text "top fin }" from depth 0 *)
+Lemma scan_top sw top fin : wf_lforest true top = true -> all_ws fin = true ->
+  scan_lines sw MSkip 0 (render_forest top ++ fin ++ [RBRACE])
+  = prepend (lines_forest sw 0 top) (match unclosed_forest top with O => Ok [] | S _ => Raise E_ParseException end).
+Proof.
+  intros Hwf Hfin. rewrite (proj2 (scan_layout sw) top 0 (fin ++ [RBRACE]) true Hwf).
+  - f_equal. cbn [Nat.add]. unfold scan_lines. rewrite scan_skip_ws by exact Hfin.
+    destruct (unclosed_forest top); reflexivity.
+  - intros _. apply ws_run_stops; [exact Hfin | reflexivity].
+Qed.
+
+Lemma brace_lines_layoutT sw top fin : wfT_lforest true top = true -> all_ws4 fin = true ->
+  brace_lines sw (render_forest top ++ fin)
+  = prepend (lines_forest sw 0 top)
+      (match unclosed_forest top with O => Ok [] | S _ => Raise E_ParseException end).
+Proof.
+  intros Hwf Hfin. unfold brace_lines, brace_tokens.
+  pose proof (head_brace_topT top fin Hwf Hfin) as Hh. unfold head_brace in Hh. rewrite Hh.
+  unfold expandtabs. cbn [expandtabs_aux]. change (N.eqb LBRACE TAB) with false.
+  change (N.eqb LBRACE NL || N.eqb LBRACE CRc)%bool with false. cbv iota.
+  rewrite <- app_assoc. rewrite !expandtabs_app.
+  destruct (proj2 detab_ok top 1 true Hwf) as [D1 [D2 [_ [D4 D5]]]].
+  rewrite <- D1.
+  assert (Er : forall col, E col [RBRACE] = [RBRACE]) by (intros; reflexivity). rewrite Er.
+  change (bind (scan MSkip 0 (render_forest (detab_forest 1 top) ++ E (col_after 1 (render_forest top)) fin ++ [RBRACE]))
+            (fun toks => Ok (map (unpack sw) toks)))
+    with (scan_lines sw MSkip 0 (render_forest (detab_forest 1 top) ++ E (col_after 1 (render_forest top)) fin ++ [RBRACE])).
+  rewrite scan_top; [|exact D2 | apply E_ws4; exact Hfin]. rewrite D4, D5. reflexivity.
+Qed.
+
+Lemma brace_roundtripT sw top fin : wfT_lforest true top = true -> all_ws4 fin = true -> unclosed_forest top = 0 ->
+  brace_lines sw (render_forest top ++ fin) = Ok (flatten_forest sw 0 (erase_forest top)).
+Proof.
+  intros Hwf Hfin Hu. rewrite brace_lines_layoutT by assumption. rewrite Hu.
+  unfold prepend. cbn [bind]. rewrite app_nil_r. rewrite (proj2 (lines_flatten sw) top 0 Hu). reflexivity.
+Qed.
+Lemma brace_unclosed_raisesT sw top fin : wfT_lforest true top = true -> all_ws4 fin = true -> 0 < unclosed_forest top ->
+  brace_lines sw (render_forest top ++ fin) = Raise E_ParseException.
+Proof.
+  intros Hwf Hfin Hu. rewrite brace_lines_layoutT by assumption.
+  destruct (unclosed_forest top); [lia | reflexivity].
 Qed.
